@@ -80,6 +80,9 @@ def cells(tier, seed):
         if sum(bits) == 4:
             continue
         out.append({"kind": "elp", "pattern": list(bits), "ctx": "default"})
+    for bits in itertools.product([0, 1], repeat=6):
+        if sum(bits) < 6:
+            out.append({"kind": "elp-mt", "pattern": list(bits), "ctx": "default"})
     # batched targets whose batch elements miss different entries (all pairs of patterns over 3 outputs)
     for b0 in itertools.product([0, 1], repeat=3):
         for b1 in itertools.product([0, 1], repeat=3):
@@ -248,6 +251,8 @@ def run_cell(cell, seed):
     feats = {"kind": kind, "ctx": cell["ctx"], "n_nan": int(torch.tensor(cell["pattern"]).sum())}
     if kind == "elp":
         return run_elp(cell, seed, feats)
+    if kind == "elp-mt":
+        return run_elp_mt(cell, seed, feats)
     if kind == "multitask_ni":
         return run_indep_outputs(cell, seed, feats)
     g = util.gen(seed, "c16|" + kind + ("" if len(cell["pattern"]) in (4, 6, 2) or kind != "single" else f"|{len(cell['pattern'])}"))
@@ -474,6 +479,58 @@ def run_elp_batch(cell, seed, feats, nanmask):
     for f in fails:
         f.setdefault("features", dict(feats, batched=True))
     return {"fails": fails, "sig": "elp-batch", "features": feats, "ops": 4, "nontrivial": 0 < int(nanmask.sum()) < nanmask.numel()}
+
+
+def run_elp_mt(cell, seed, feats):
+    """MultitaskGaussianLikelihood (diagonal task noise) on an n x t MultitaskMultivariateNormal in BOTH layouts: expected_log_prob /
+    log_marginal with NaN targets == the sum of the terms of the observed (point, task) entries"""
+    fails = Fails()
+    n, t = 3, 2
+    nanmask = torch.tensor(cell["pattern"], dtype=torch.bool).view(n, t)
+    g = util.gen(seed, "c16elpmt")
+    m, Cint = util.randn(g, n, t), util.spd(g, n * t)            # Cint: point-major (interleaved) order
+    y0 = util.randn(g, n, t)
+    y = y0.clone()
+    y[nanmask] = float("nan")
+    lik = gpytorch.likelihoods.MultitaskGaussianLikelihood(num_tasks=t, rank=0)
+    with torch.no_grad():
+        lik.task_noises = torch.tensor([0.2, 0.45], dtype=F64)
+        lik.noise = torch.tensor([0.1], dtype=F64)
+    s2 = torch.tensor([0.3, 0.55], dtype=F64)                     # per task: task noise + global noise
+    var = Cint.diagonal().view(n, t)
+    elp_ref = -0.5 * (((y0 - m) ** 2 + var) / s2 + s2.log() + math.log(2 * math.pi))
+    lm_ref = -0.5 * ((y0 - m) ** 2 / (var + s2) + torch.log(var + s2) + math.log(2 * math.pi))
+    obs = ~nanmask
+    MT = gpytorch.distributions.MultitaskMultivariateNormal
+    for inter in (True, False):
+        C = Cint if inter else Cint.view(n, t, n, t).permute(1, 0, 3, 2).reshape(n * t, n * t)
+        dist = MT(m, C, interleaved=inter)
+        for pol in ("mask",):   # 'fill' is documented as unsupported for multitask models
+            f2 = dict(feats, policy=pol, interleaved=inter)
+            for name, ref in (("expected_log_prob", elp_ref), ("log_marginal", lm_ref)):
+                try:
+                    with S.observation_nan_policy(pol), torch.no_grad():
+                        got = getattr(lik, name)(y, dist)
+                except Exception as e:
+                    fails.append({"sub": name, "symptom": util.exc_str(e), "detail": "", "features": f2})
+                    continue
+                if torch.isnan(got).any():
+                    fails.append({"sub": name, "symptom": "NaN in output", "detail": "", "features": f2})
+                    continue
+                want_sum = ref[obs].sum()
+                if abs(float(got.sum() - want_sum)) > 1e-9:
+                    charact = ""
+                    if not inter:
+                        # the known wrong value: the point-major mask applied to the task-major variances
+                        vt = C.diagonal()[obs.reshape(-1)]
+                        yy, mm, ss = y0[obs], m[obs], s2.expand(n, t)[obs]
+                        alt = (-0.5 * (((yy - mm) ** 2 + vt) / ss + ss.log() + math.log(2 * math.pi))).sum() if name == "expected_log_prob" else \
+                            (-0.5 * ((yy - mm) ** 2 / (vt + ss) + torch.log(vt + ss) + math.log(2 * math.pi))).sum()
+                        if abs(float(got.sum() - alt)) < 1e-9:
+                            charact = " (= variances of OTHER (point, task) entries: point-major mask on the task-major covariance)"
+                    fails.append({"sub": name, "symptom": f"sum of terms != sum over the observed (point, task) entries: err={abs(float(got.sum() - want_sum)):.3e}{charact}",
+                                  "detail": "", "features": f2})
+    return {"fails": fails, "sig": "elp-mt", "features": feats, "ops": 4, "nontrivial": 0 < int(nanmask.sum()) < n * t}
 
 
 def run_elp(cell, seed, feats):
